@@ -30,6 +30,9 @@ def payload(n, kind, rnd):
         return bytes(n)
     if kind == "text":
         return (b"the quick brown fox " * (n // 20 + 1))[:n]
+    if kind == "lines":
+        # ends in line ends (the byte that also terminates a frame): what is delivered must still be exactly this
+        return ((b"a line\n" * (n // 7 + 1))[:max(0, n - 2)] + b"\n\n")[:n]
     return bytes(rnd.getrandbits(8) for _ in range(n)) if n < 70000 else os.urandom(n)
 
 
@@ -358,7 +361,7 @@ def compare(fx, st, CHUNK):
 
 # --------------------------------------------------------------------------- code -> spec
 def random_run(chk, rnd, sizes, wcomp, rcomp, transport, fault_p):
-    kinds = [rnd.choice(["zeros", "text", "random"]) for _ in sizes]
+    kinds = [rnd.choice(["zeros", "text", "random", "lines"]) for _ in sizes]
     payloads = [payload(n, k, rnd) for n, k in zip(sizes, kinds)]
     state = {"fault": None}
     frag = rnd.choice([None, None, 1, 3, 1000, 5000, 70000])
@@ -434,8 +437,8 @@ def main():
         plans = [([5, 0, 3], True, "socket", 10 ** 6), ([2, 3, 1], False, "socket", 10 ** 6), ([3, 5, 0], True, "pipe", 10 ** 6),
                  ([7, 1], True, "socket", 10 ** 6), ([2, 6], False, "pipe", 10 ** 6)]
     tot = [0, 0, 0]
-    for lens, wcomp, transport, mp in plans:
-        a, b, c = replay_graph(chk, lens, wcomp, transport, mp, rnd)
+    for pi_, (lens, wcomp, transport, mp) in enumerate(plans):
+        a, b, c = replay_graph(chk, lens, wcomp, transport, mp, rnd, kind=["text", "lines", "text", "lines", "text"][pi_ % 5])
         tot = [tot[0] + a, tot[1] + b, tot[2] + c]
     chk.cov.update({"tlc_paths_replayed": tot[0], "graph_edges_replayed": tot[1], "graph_edges_total": tot[2]})
     # real constants
